@@ -117,6 +117,7 @@ def run(chk):
                        "element-wise array equality are additionally required to be true",
                        "integers beyond 2^53 are mixed with floats only in maps of two keys (the stated equality is not transitive up there, so larger key sets are undecidable)"]
     chk.floor = 2000
+    chk.rule += '; plus two-key maps of an integer beyond 2^53 and the float it equals, and equal-but-distinguishable values (1 / 1.0, equal arrays) re-inserted under one key'
     jobs = []   # (keys, ops, tag)
     vid = [100]
 
